@@ -358,9 +358,9 @@ def handle (op : String) (c i : Json) : Except String (Json × String) := do
     if !J.isNull (J.keyD i "skipped" Json.null) then return (J.obj [], "ok")
     let lines ← J.strList (← J.key i "lines")
     let pm := postProcess (readFile (lines.map String.toList))
-    let psigJ (s : PSig) : Json := J.obj [("name", strJ s.name), ("receivers", J.ofStrList (s.receivers.map String.ofList)),
+    let psigJ (s : PSig) : Json := J.obj [("name", strJ s.name), ("cycle", J.ofInt s.cycle), ("receivers", J.ofStrList (s.receivers.map String.ofList)),
       ("attrs", pairsJ s.attrs), ("comment", optStrJ s.comment)]
-    let pframeJ (f : PFrame) : Json := J.obj [("id", J.ofNat f.key.1), ("ext", .bool f.key.2), ("name", strJ f.name),
+    let pframeJ (f : PFrame) : Json := J.obj [("id", J.ofNat f.key.1), ("ext", .bool f.key.2), ("name", strJ f.name), ("cycle", J.ofInt f.cycle),
       ("tx", J.ofStrList (f.tx.map String.ofList)), ("rx", J.ofStrList (f.rx.map String.ofList)), ("attrs", pairsJ f.attrs),
       ("comment", optStrJ f.comment), ("sigs", J.ofList (f.sigs.map psigJ))]
     pure (J.obj [("final", J.obj [("ecus", J.ofStrList (pm.ecus.map String.ofList)), ("frames", J.ofList (pm.frames.map pframeJ)),
